@@ -480,7 +480,9 @@ func TestFinding_service_id_path_join(t *testing.T) {
 // indices 0-5: what TiDB/BR/TiCDC send (plus the empty id); 6: a benign id with a slash; 7-13: ids that path
 // cleaning alters (the id is an arbitrary byte string chosen by the gRPC client / the REST path)
 var svcIDs = []string{gcWorker, "ticdc", "br", "br-1", "svc_a", "", "a/b",
-	"..", "../safe_point", ".", "a/../br", "/", "br/", "ticdc/"}
+	"..", "../safe_point", ".", "a/../br", "/", "br/", "ticdc/",
+	// 14, 15: two of the bulk-registered services (see SvcCase.Bulk), so that ops renew / remove them
+	"bulk-0001", "bulk-0002"}
 
 // hostileID: the id does not survive being joined as a path element, so it addresses another storage key
 // than "gc/safe_point/service/<id>" (the empty id is handled separately: the storage refuses to save it).
@@ -513,7 +515,14 @@ type SOp struct {
 }
 
 type SvcCase struct {
-	GC    uint64 `json:"gc,omitempty"` // cluster GC safe point stored before the history (service ops must not touch it)
+	GC uint64 `json:"gc,omitempty"` // cluster GC safe point stored before the history (service ops must not touch it)
+	// Bulk > 0: before the history the storage holds exactly Bulk service entries in total (the seeds, gc_worker
+	// and services bulk-0001, bulk-0002, ... with safe points BulkSP+i%7 and a far expiry), around the paging
+	// boundaries of a range read (100 per page). BulkExpired of the bulk services are stored already expired, so
+	// that the first request prunes them and the number of entries moves across a boundary during the history.
+	Bulk        int    `json:"bulk,omitempty"`
+	BulkExpired int    `json:"bulkExpired,omitempty"`
+	BulkSP      uint64 `json:"bulkSP,omitempty"`
 	Seeds []Seed `json:"seeds"`
 	Ops   []SOp  `json:"ops"`
 }
@@ -529,6 +538,11 @@ func genSvc(t *rapid.T) SvcCase {
 	if rapid.IntRange(0, 2).Draw(t, "hasGC") != 0 {
 		c.GC = uint64(rapid.IntRange(1, 40).Draw(t, "gc"))
 	}
+	if rapid.IntRange(0, 2).Draw(t, "hasBulk") == 2 {
+		c.Bulk = rapid.SampledFrom([]int{100, 100, 100, 200, 200, 99, 101, 98, 102, 103, 199, 201, 202, 1, 300}).Draw(t, "bulk")
+		c.BulkExpired = rapid.SampledFrom([]int{0, 0, 0, 1, 2, 3}).Draw(t, "bulkExpired")
+		c.BulkSP = uint64(rapid.IntRange(1, 20).Draw(t, "bulkSP"))
+	}
 	n := rapid.IntRange(3, 12).Draw(t, "ops")
 	for i := 0; i < n; i++ {
 		var op SOp
@@ -536,7 +550,7 @@ func genSvc(t *rapid.T) SvcCase {
 		if rapid.IntRange(0, 11).Draw(t, "kind") == 7 {
 			op.Kind = "apidelete"
 		}
-		op.ID = rapid.SampledFrom([]int{0, 0, 0, 1, 1, 1, 2, 2, 3, 3, 4, 4, 5, 6, 7, 7, 8, 9, 10, 11, 12, 13}).Draw(t, "id")
+		op.ID = rapid.SampledFrom([]int{0, 0, 0, 1, 1, 1, 2, 2, 3, 3, 4, 4, 5, 6, 7, 7, 8, 9, 10, 11, 12, 13, 14, 14, 15}).Draw(t, "id")
 		if op.Kind == "update" {
 			op.TTL = rapid.SampledFrom([]int{0, 1, 2, 3, 3, 3, 4, 5, 5, 6, 7, 8, 8, 9, 10, 11, 12, 13, 14}).Draw(t, "ttl")
 			if rapid.IntRange(0, 2).Draw(t, "rel") != 0 {
@@ -605,7 +619,10 @@ func fmtState(m map[string]entry) string {
 	}
 	sort.Strings(ids)
 	var sb strings.Builder
-	for _, id := range ids {
+	for n, id := range ids {
+		if len(ids) > 16 && strings.HasPrefix(id, "bulk-") && n > 8 && id != "bulk-0001" && id != "bulk-0002" {
+			continue // keep messages readable: most bulk entries are elided
+		}
 		e := m[id]
 		exp := strconv.FormatInt(e.Exp, 10)
 		if e.Exp == math.MaxInt64 {
@@ -613,7 +630,7 @@ func fmtState(m map[string]entry) string {
 		}
 		fmt.Fprintf(&sb, "%s:{sp %d exp %s} ", id, e.SP, exp)
 	}
-	return "[" + strings.TrimSpace(sb.String()) + "]"
+	return fmt.Sprintf("[%s] (%d entries)", strings.TrimSpace(sb.String()), len(m))
 }
 
 func copyState(m map[string]entry) map[string]entry {
@@ -677,6 +694,35 @@ func runSvc(c SvcCase) (vkit.Info, error) {
 		model[id] = entry{SP: sd.SP, Exp: exp}
 		info.ClassIf(id == gcWorker && exp != math.MaxInt64, "seed-gc_worker-finite")
 		info.ClassIf(exp < now0.Unix(), "seed-expired")
+	}
+	if c.Bulk > 0 {
+		// written straight into the storage in the stored format (like the seeds): the total number of stored
+		// entries is what matters, not how they got there
+		put := func(id string, sp uint64, exp int64) error {
+			b, _ := json.Marshal(storedSSP{ServiceID: id, ExpiredAt: exp, SafePoint: sp})
+			model[id] = entry{SP: sp, Exp: exp}
+			return base.Save(prefixService+id, string(b))
+		}
+		if _, ok := model[gcWorker]; !ok && len(model) < c.Bulk {
+			if err := put(gcWorker, c.BulkSP, math.MaxInt64); err != nil {
+				return info, err
+			}
+		}
+		for i := 1; len(model) < c.Bulk; i++ {
+			id := fmt.Sprintf("bulk-%04d", i)
+			if _, ok := model[id]; ok {
+				continue
+			}
+			exp := now0.Unix() + 1000000
+			if i > 2 && i <= 2+c.BulkExpired {
+				exp = now0.Unix() - 1000000
+			}
+			if err := put(id, c.BulkSP+uint64(i%7), exp); err != nil {
+				return info, err
+			}
+		}
+		info.Class(fmt.Sprintf("bulk:%d", len(model)))
+		info.ClassIf(c.BulkExpired > 0, "bulk-with-expired")
 	}
 	seededGW := false
 	if _, ok := model[gcWorker]; ok {
